@@ -63,3 +63,190 @@ R.contract(
     ensures=[("idempotent", "seq_eq(r2, result)")],
     raises="none",
 )
+
+# ------------------------------------------------------------------ LogStager (shared with C10)
+BOTH = ["C16", "C10"]
+R.record("LogKey", {"turn_id": "int", "stage_ord": "int", "slice_idx": "int", "seq": "int"},
+         pyclass="clematis.engine.util.io_logging:LogKey")
+R.record("StagedRecord", {"file_path": "str", "key": "LogKey", "payload": REC, "bytes_estimate": "int"},
+         pyclass="clematis.engine.util.io_logging:StagedRecord")
+SR = "List[StagedRecord]"
+R.objtype("LogStager", {"_buf": SR, "_seq": "int", "_bytes": "int", "byte_limit": "int"},
+          cls=("clematis/engine/util/io_logging.py", "LogStager"))
+R.optobj("OptLogStager", "LogStager")
+STG = IOL + "LogStager."
+
+# bsum(L, i) = sum of L[j].bytes_estimate for j < i  (primitive recursion on the prefix length)
+R.uf("bsum", [SR, "int"], "int")
+AX_BSUM = ["forall((L, 'List[StagedRecord]'), True, bsum(L, 0) == 0)",
+           "forall((L, 'List[StagedRecord]'), True, "
+           "forall(i, 0 <= i < len(L), bsum(L, i + 1) == bsum(L, i) + L[i].bytes_estimate))"]
+# bsum depends only on the prefix (induction on n: lemma 'bsum_prefix' below)
+R.ghostfun("lemma_bsum_prefix", ["A", "B", "n"],
+           requires=["0 <= n and n <= len(A) and n <= len(B)", "forall(j, 0 <= j < n, enc_eq(A[j], B[j]))"],
+           ensures=["bsum(A, n) == bsum(B, n)"])
+
+
+def _bsum_lemma():
+    import z3
+    sA = z3.Function("sA", z3.IntSort(), z3.IntSort())   # i -> bsum(A, i)
+    sB = z3.Function("sB", z3.IntSort(), z3.IntSort())
+    eA = z3.Function("eA", z3.IntSort(), z3.IntSort())   # j -> A[j].bytes_estimate
+    eB = z3.Function("eB", z3.IntSort(), z3.IntSort())
+    i, n, j = z3.Ints("i n j")
+    same = z3.ForAll([j], z3.Implies(z3.And(0 <= j, j < n), eA(j) == eB(j)))
+    defs = [sA(0) == 0, sB(0) == 0, sA(i + 1) == sA(i) + eA(i), sB(i + 1) == sB(i) + eB(i), same]
+    return [("base", defs, sA(0) == sB(0)),
+            ("step", defs + [0 <= i, i < n, sA(i) == sB(i)], sA(i + 1) == sB(i + 1))]
+
+
+R.lemma("bsum_prefix", "C16", _bsum_lemma)
+
+R.contract(
+    STG + "__init__", BOTH,
+    types={"self": "LogStager", "byte_limit": "int"},
+    axioms=AX_BSUM,
+    ensures=[("empty", "len(self._buf) == 0 and self._bytes == 0 and self._seq == 0"),
+             ("limit-stored", "self.byte_limit == byte_limit"),
+             ("inv-established", "wf_stager(self)")],
+    raises="none", callee=False,
+)
+
+R.contract(
+    STG + "next_seq", BOTH,
+    types={"self": "LogStager"},
+    requires=[("wf", "wf_stager(self)")],
+    ensures=[("strictly-increasing", "result == old(self._seq) + 1 and self._seq == result and result > old(self._seq)"),
+             ("frame", "seq_eq(self._buf, old(self._buf)) and self._bytes == old(self._bytes) and "
+                       "self.byte_limit == old(self.byte_limit)"),
+             ("inv-preserved", "wf_stager(self)")],
+    raises="none", callee=False,
+)
+
+LAST = "self._buf[len(self._buf) - 1]"
+R.contract(
+    STG + "stage", BOTH,
+    types={"self": "LogStager", "file_path": "str", "key": "LogKey", "payload": REC},
+    ghost={"gest": ("int", "any"), "buf0": (SR, "empty")},
+    setup=["buf0 = list(self._buf)"],
+    axioms=AX_BSUM,
+    requires=[("wf", "wf_stager(self)")],
+    asserts={"est": ["ghost:gest = est"]},
+    post_setup=["lemma_bsum_prefix(self._buf, buf0, len(buf0))"],
+    ensures=[
+        ("inv-preserved", "wf_stager(self)"),
+        ("appended-last", "len(self._buf) == old(len(self._buf)) + 1 and "
+                          "forall(i, 0 <= i < old(len(self._buf)), enc_eq(self._buf[i], old(self._buf)[i]))"),
+        ("staged-record", LAST + ".file_path == file_path and " + LAST + ".key == key and " + LAST + ".bytes_estimate == gest "
+                          "and seq_eq(" + LAST + ".payload, norm_id(os_basename(file_path), payload))"),
+        ("bytes-accounting", "self._bytes == old(self._bytes) + gest and gest >= 2"),
+        ("accepted-only-within-limit", "old(self._bytes) + gest <= self.byte_limit"),
+        ("frame", "self._seq == old(self._seq) and self.byte_limit == old(self.byte_limit)"),
+        ("payload-not-mutated", "seq_eq(payload, old(payload))"),
+    ],
+    raises=["RuntimeError"],
+    ensures_exc=[
+        ("backpressure-only-over-limit", "old(self._bytes) + gest > old(self.byte_limit)"),
+        ("message", "exc_msg == 'LOG_STAGING_BACKPRESSURE'"),
+        ("nothing-changed", "seq_eq(self._buf, old(self._buf)) and self._bytes == old(self._bytes) and "
+                            "self._seq == old(self._seq) and self.byte_limit == old(self.byte_limit) and "
+                            "seq_eq(payload, old(payload))"),
+    ],
+    callee=False,
+)
+
+R.contract(
+    STG + "drain_sorted", BOTH,
+    types={"self": "LogStager"},
+    returns=SR,
+    axioms=AX_BSUM,
+    requires=[("wf", "wf_stager(self)")],
+    ensures=[
+        ("emptied", "len(self._buf) == 0 and self._bytes == 0"),
+        ("inv-preserved", "wf_stager(self)"),
+        ("returns-every-staged-record-once", "perm_of(result, old(self._buf))"),
+        ("sorted-by-turn-stage-slice-seq-path",
+         "forall2(i, j, 0 <= i and i < j and j < len(result), stage_key(result[i]) <= stage_key(result[j]))"),
+        ("frame", "self._seq == old(self._seq) and self.byte_limit == old(self.byte_limit)"),
+    ],
+    raises="none", callee=False,
+)
+
+R.contract(
+    IOL + "default_key_for", BOTH,
+    types={"file_path": "str", "turn_id": "int", "slice_idx": "int"},
+    ghost={"ctx_STAGING_STATE": ("OptLogStager", "any")},
+    ensures=[
+        ("key-fields", "result.turn_id == turn_id and result.slice_idx == slice_idx"),
+        ("stage-ord-documented-table", "result.stage_ord == stage_ord_of(os_basename(file_path))"),
+        ("unknown-stream-sorts-last",
+         "(1 <= result.stage_ord and result.stage_ord <= 10) or result.stage_ord == 99"),
+        ("fresh-seq-strictly-increasing",
+         "result.seq == old(ctx_STAGING_STATE._seq) + 1 and ctx_STAGING_STATE._seq == result.seq"),
+        ("buffer-untouched", "seq_eq(ctx_STAGING_STATE._buf, old(ctx_STAGING_STATE._buf)) and "
+                             "ctx_STAGING_STATE._bytes == old(ctx_STAGING_STATE._bytes)"),
+    ],
+    raises={"RuntimeError": "not present(ctx_STAGING_STATE)"},
+    ensures_exc=[("message", "exc_msg == 'staging not enabled'")],
+    callee=False,
+)
+
+# ------------------------------------------------------------------ clematis/io/log.py
+# paths.logs_dir(): callers see a total deterministic function (its mkdir side effects / OSError are outside this model;
+# a failure there happens before any open/write)
+R.opaque("clematis/io/paths.py:logs_dir", "logs_dir_path", argtypes=[], rettype="str")
+FS_GHOST = {"fs_opens": ("List[Tuple[str, str]]", "empty"), "fs_writes": ("List[Tuple[str, str, str]]", "empty")}
+LEGACY = "json_dumps(%s, ensure_ascii=False)"
+CANON = "json_dumps(%s, ensure_ascii=False, sort_keys=True, separators=(',', ':'))"
+W0 = "fs_writes[0][2]"
+
+R.contract(
+    LOG + "_append_jsonl_unbuffered", "C16", callee=False,
+    types={"filename": "str", "record": REC},
+    ghost=dict(FS_GHOST, rec0=(REC, "any")),
+    setup=["rec0 = record"],
+    ensures=[
+        ("one-binary-append-open", "len(fs_opens) == 1 and fs_opens[0][0] == os_join(logs_dir_path(), filename) "
+                                   "and fs_opens[0][1] == 'ab'"),
+        ("exactly-one-write-on-that-handle", "len(fs_writes) == 1 and fs_writes[0][0] == fs_opens[0][0] and fs_writes[0][1] == 'ab'"),
+        ("line-is-dump-of-normalised-record-plus-LF",
+         W0 + " == " + LEGACY % "norm_id(os_basename(filename), rec0)" + " + '\\n'"),
+        ("one-complete-LF-terminated-line",
+         W0 + ".endswith('\\n') and not ('\\n' in " + W0 + "[:len(" + W0 + ") - 1])"),
+        ("record-not-mutated", "seq_eq(rec0, old(record))"),
+    ],
+    raises=["OSError"],
+    ensures_exc=[("never-more-than-one-write", "len(fs_writes) == 0 and len(fs_opens) <= 1")],
+)
+
+# atomic_write_text is verified under C08; here only the call is recorded (assumed contract named explicitly)
+AWT = R.contract(
+    "clematis/io/atomic.py:atomic_write_text", "C16", verify=False, callee=False,
+    types={"final_path": "str", "text": "str", "encoding": "str", "newline": "str"},
+    raises=["OSError"],
+    effects=["aw_calls.append((final_path, text, encoding, newline))"],
+)
+DUMP_I = CANON % "norm_id(os_basename(filename), records[%s])"
+R.contract(
+    LOG + "rewrite_jsonl", "C16", callee=False,
+    types={"filename": "str", "records": "List[Dict[str, Json]]"},
+    ghost={"aw_calls": ("List[Tuple[str, str, str, str]]", "empty"), "glines": ("List[str]", "empty")},
+    funcs={"clematis/io/atomic.py:atomic_write_text": AWT},
+    asserts={"payload": ["ghost:glines = lines"]},
+    ensures=[
+        ("written-only-through-one-atomic_write_text",
+         "len(aw_calls) == 1 and aw_calls[0][0] == os_join(logs_dir_path(), filename) and aw_calls[0][2] == 'utf-8' "
+         "and aw_calls[0][3] == '\\n'"),
+        ("payload-is-concatenation-of-lines", "aw_calls[0][1] == ''.join(glines)"),
+        ("count-preserved", "len(glines) == len(records)"),
+        ("line-i-is-canonical-dump-of-normalised-record-i",
+         "forall(i, 0 <= i < len(records), glines[i] == " + DUMP_I % "i" + " + '\\n')"),
+        ("records-not-mutated", "enc_eq(records, old(records))"),
+    ],
+    raises=["OSError"],
+    ensures_exc=[("nothing-written-on-failure", "len(aw_calls) == 0")],
+    loops={0: {"inv": ["len(lines) == _i",
+                       "forall(j, 0 <= j < _i, lines[j] == " + DUMP_I % "j" + " + '\\n')",
+                       "enc_eq(records, pre_loop(records)) and len(aw_calls) == 0"]}},
+    locals={"lines": "List[str]"},
+)
